@@ -302,7 +302,23 @@ func freshChan(desc string) *intrinsicDef {
 	}}
 }
 
+// timeCmp: time.Time.After / Before compare an abstract key of the time value (a strict total preorder)
+func timeCmp(op string) *intrinsicDef {
+	return &intrinsicDef{name: "time.Time." + map[string]string{">": "After", "<": "Before"}[op] + " compares the instants (abstract key ext(\"timekey\", t))", heaps: noHeaps,
+		apply: func(g *VCGen, c *ssa.CallCommon, pos token.Pos, v *ssa.Call) []SpecVal {
+			a, b := g.val(c.Args[0]), g.val(c.Args[1])
+			fn := "ext.timekey"
+			if !g.so.done[fn] {
+				g.so.done[fn] = true
+				g.specDecls = append(g.specDecls, fmt.Sprintf("(declare-fun %s (%s) Int)", fn, a.Sort))
+			}
+			return []SpecVal{g.define(v, fmt.Sprintf("(%s (%s %s) (%s %s))", op, fn, a.T, fn, b.T))}
+		}}
+}
+
 var simpleIntrinsics = map[string]*intrinsicDef{
+	"(time.Time).After":  timeCmp(">"),
+	"(time.Time).Before": timeCmp("<"),
 	"time.After": freshChan("time.After returns a fresh channel (the runtime sends on it once, later)"),
 	"go.uber.org/multierr.Append": {name: "multierr.Append(a, b) is nil exactly when both a and b are nil; no effect on tracked state", heaps: noHeaps, allocs: true,
 		apply: func(g *VCGen, c *ssa.CallCommon, pos token.Pos, v *ssa.Call) []SpecVal {
